@@ -43,19 +43,15 @@ the progress repair never has to force anything. -/
 theorem takeFitF_fits {fx : Fixes} {cfg : Cfg} {lw len : Nat} {gs : List G}
     (hf : ∀ g ∈ gs, g.w + cfg.leftSym.w ≤ lw) (hge : lw ≤ len + gsWidth gs) :
     takeFitF fx len (widthLeft cfg lw len gs) gs = takeFit (widthLeft cfg lw len gs) gs := by
-  cases gs with
-  | nil => simp [takeFitF, takeFit]
-  | cons g gs =>
-    apply takeFitF_eq
-    by_cases h0 : len = 0
-    · right; right
-      subst h0
-      have := hf g (by simp)
-      have hfit : g.w ≤ widthLeft cfg lw 0 (g :: gs) := by unfold widthLeft; omega
-      unfold takeFit
-      rw [if_pos hfit]
-      simp
-    · right; left; exact h0
+  apply takeFitF_eq
+  by_cases h0 : len = 0
+  · right; right
+    subst h0
+    intro g hg
+    have := hf g hg
+    unfold widthLeft
+    omega
+  · right; left; exact h0
 
 /-- With `Fits`, or with the progress repair, every iteration decreases the measure. -/
 theorem mu_step_fits {fx : Fixes} {cfg : Cfg} {sym lw : Nat} {st st' : St}
